@@ -51,6 +51,41 @@ macro_rules! proof_decl {
             $body(&mut s);
         }
     };
+    // S5: Board::calc_outcome = harness-owned symbolic outcome
+    (s5, $name:ident, $unwind:expr, $body:expr) => {
+        #[cfg(kani)]
+        #[kani::proof]
+        #[kani::unwind($unwind)]
+        #[kani::stub(owlchess::board::Board::calc_outcome, $crate::c14::calc_outcome_stub)]
+        fn $name() {
+            let mut s = $crate::src::KSrc;
+            $body(&mut s);
+        }
+    };
+    // S4: core::str::from_utf8 = reference automaton
+    (s4, $name:ident, $unwind:expr, $body:expr) => {
+        #[cfg(kani)]
+        #[kani::proof]
+        #[kani::unwind($unwind)]
+        #[kani::stub(core::str::from_utf8, $crate::stubs::from_utf8_model)]
+        fn $name() {
+            let mut s = $crate::src::KSrc;
+            $body(&mut s);
+        }
+    };
+    // S1 + S3 (chains: real hash, has_legal_moves = harness-owned bool)
+    (s13, $name:ident, $unwind:expr, $body:expr) => {
+        #[cfg(kani)]
+        #[kani::proof]
+        #[kani::unwind($unwind)]
+        #[kani::stub(owlchess::attack::rook, $crate::stubs::rook_stub)]
+        #[kani::stub(owlchess::attack::bishop, $crate::stubs::bishop_stub)]
+        #[kani::stub(owlchess::movegen::has_legal_moves, $crate::stubs::hlm_stub)]
+        fn $name() {
+            let mut s = $crate::src::KSrc;
+            $body(&mut s);
+        }
+    };
     // S1 + S2 + S3 (has_legal_moves = harness-owned bool)
     (s123, $name:ident, $unwind:expr, $body:expr) => {
         #[cfg(kani)]
